@@ -31,6 +31,12 @@ def main():
     env = dict(os.environ, PYTHONPATH=wt, PYTHONHASHSEED="0")
     demo = os.path.join(src, "demo.py")
     try:
+        # demos sometimes assert the path of the sub-agent's own worktree: run a copy that names this scratch worktree instead
+        agent_wt = os.path.dirname(os.path.dirname(os.path.abspath(src)))
+        txt = open(demo).read()
+        if agent_wt.startswith("/tmp/seed_") and agent_wt in txt:
+            demo = os.path.join(wt, "_demo_copy.py")
+            open(demo, "w").write(txt.replace(agent_wt, wt))
         t = time.time()
         r = sh(["timeout", "900", "/venv/bin/python", demo], env=env, cwd=wt)
         meta["confirmed"]["demo_passes_without_change"] = (r.returncode == 0)
